@@ -71,6 +71,9 @@ func genOverlapSteps(r *gen.Rand, cfg tcfg) []tstep {
 				st.Mode = gen.Pick(r, qualifying)
 			}
 		}
+		if cfg.NKeys > 1 && r.Chance(1, 8) {
+			st.Rekey = (key+r.Range(1, cfg.NKeys-1))%cfg.NKeys + 1 // another key
+		}
 		return st
 	}
 	var steps []tstep
